@@ -57,6 +57,12 @@ func shrinkCandidates(sc *Scenario) []*Scenario {
 		i := i
 		add(func(c *Scenario) bool { c.Plan.Steps = append(c.Plan.Steps[:i], c.Plan.Steps[i+1:]...); return true })
 	}
+	if sc.Plan.PanicAt > 0 {
+		add(func(c *Scenario) bool { c.Plan.PanicAt, c.Plan.PanicSite = 0, ""; return true })
+		if sc.Plan.PanicAt > 1 {
+			add(func(c *Scenario) bool { c.Plan.PanicAt--; return true })
+		}
+	}
 	for i := range sc.Plan.Writers {
 		i := i
 		add(func(c *Scenario) bool {
